@@ -163,3 +163,14 @@ claim("C15",
       "consistency (H, F, I, D), ENU = NED swapped incl. spelling, +-180 equality, finiteness at the poles, constructor = method; the "
       "recorded histories are validated by TraceWmmSession.",
       "TLA+ WmmSession + TLC (exhaustive histories, simulate) + replay and trace validation", "DESIGN.md section 5, C15")
+claim("C14",
+      "(1) WmmDate.tla: dates in tenths of a year, Epoch/Dt, calendar days with their rounding to the tenth grid and an ambiguity "
+      "predicate; TLC checks EpochContains / CalendarInItsEpoch on all 151 grid dates and 5 844 calendar days of 2015-2030. (2) "
+      "WmmSynth.tla: the DEFINITION of the Schmidt semi-normalised associated Legendre functions and their latitude derivative as "
+      "explicit finite sums and the implementation's ALGORITHM (Gauss-normalised recursion, k[m,n], scale factors) in exact reduced "
+      "rationals, with AlgorithmIsDefinition / DerivativeIsColatitude proved by TLC up to degree 6 at Pythagorean latitudes incl. "
+      "both poles. The harness checks its Fraction mirror of the DEFINITION operators against TLC's values, evaluates the degree-12 "
+      "synthesis from independently parsed .COF files at 14 places (poles to 850 km, equator, +-180) x dates incl. the epoch "
+      "boundaries x {method, constructor} (1e-5 nT), calendar dates against (file, dt) of the specification, and time-affinity "
+      "inside each epoch.",
+      "TLA+ WmmDate + WmmSynth (exact rationals) + TLC + Fraction-mirror replay", "DESIGN.md section 5, C14")
